@@ -92,6 +92,24 @@ def run(ctx):
             lines.append(f"foreign {i} 0 {len(unk)} {u} {values.render(a)}")
             meta.append((i, a, False, unk))
             absent += 1
+    # very many unknown tagged fields (the count of a tagged section is a varint, not a byte): 128+
+    # unknown entries at every level, on classes that contain arrays of structures
+    import typing as _ty
+    def has_struct_array(c):
+        hints = _ty.get_type_hints(c)
+        for f in dataclasses.fields(c):
+            tp = hints[f.name]
+            if _ty.get_origin(tp) is tuple and dataclasses.is_dataclass(_ty.get_args(tp)[0]):
+                return True
+        return False
+    many = [(i, a) for i, a, _o in insts if cl.cls(i).__flexible__ and has_struct_array(cl.cls(i)) and " A0" not in " " + values.render(a)]
+    for i, a in many[:: max(1, len(many) // (60 if thorough else 10))][: (60 if thorough else 10)]:
+        for nunk in (128, 130, 300):
+            declared_all = set(range(0, 64))
+            unk = [(1000 + 3 * j, bytes([j % 256]) * (j % 3)) for j in range(nunk)]
+            u = " ".join(f"{t} {values.hex_tok(p)}" for t, p in unk)
+            lines.append(f"foreign {i} {rng.choice([0, 1])} {len(unk)} {u} {values.render(a)}")
+            meta.append((i, a, False, unk))
     # per-occurrence choices (`Spec.encMixed`): every structure occurrence decides for itself which
     # defaults to send and which unknown entries to add
     nmixed = 0
